@@ -165,6 +165,15 @@ pub fn generate(seed: u64, index: u64, cart_type: u8, rom_code: u8) -> Program {
     image[off..off + a.bytes.len()].copy_from_slice(&a.bytes);
   }
 
+  // ---- the last two bytes of every switchable bank: INC E; JP nn - the jump is cut by the end
+  // of the window and takes its target from video RAM (set by the caller: a RET in bank 0)
+  for bank in 1..banks {
+    let off = bank * 0x4000;
+    image[off + 0x3ffe] = 0x1c;
+    image[off + 0x3fff] = 0xc3;
+  }
+  image[0x0fe0] = 0xc9;
+
   // ---- subroutines in bank 0 from 0x1000
   let mut subs: Vec<u16> = Vec::new();
   let mut sub_asm = Asm::new(0x1000);
@@ -499,6 +508,14 @@ pub fn generate(seed: u64, index: u64, cart_type: u8, rom_code: u8) -> Program {
           a.call(bank_routine_addr[r]);
           if rng.chance(1, 2) {
             a.call(0x0fc0); // peek into the bank just mapped, from bank-0 code
+          }
+          if rng.chance(1, 4) {
+            // leave the window through its last instruction (target bytes in video RAM)
+            a.ld_a(0xe0);
+            a.ld_a_to(0x8000);
+            a.ld_a(0x0f);
+            a.ld_a_to(0x8001);
+            a.call(0x7ffe);
           }
           if banks > 2 && rng.chance(1, 3) {
             a.ld_a(1 + rng.below((banks - 1) as u64) as u8);
